@@ -1046,6 +1046,14 @@ func (e *Engine) opSign() {
 	}
 	cert, isCert := key.(*ssh.Certificate)
 	verify := func() {
+		// the algorithm the caller asked for with the flags is the one the underlying agent would have used
+		if strings.Contains(key.Type(), "rsa") {
+			want := map[agent.SignatureFlags]string{0: ssh.KeyAlgoRSA, agent.SignatureFlagRsaSha256: ssh.KeyAlgoRSASHA256, agent.SignatureFlagRsaSha512: ssh.KeyAlgoRSASHA512}[flags]
+			if sig.Format != want {
+				e.disc([]string{"C10"}, "signature-algorithm-not-the-one-requested", fmt.Sprintf("Sign(%s) with flags %d: signature format %q, the underlying agent signs %q for these flags", e.describe(blob), flags, sig.Format, want))
+				return
+			}
+		}
 		if verr := key.Verify(data, sig); verr != nil {
 			e.disc([]string{"C10"}, "signature-does-not-verify", fmt.Sprintf("Sign(%s): %v", e.describe(blob), verr))
 		} else {
